@@ -182,3 +182,11 @@ Fixpoint sdict_set {V : Type} (d : list (pystr * V)) (k : pystr) (v : V) : list 
    a TypeError (Err tag: an unexpected keyword argument, or multiple values for one) *)
 Definition sdict_only {V : Type} (tag : Z) (allowed : list pystr) (d : list (pystr * V)) : result unit :=
   if forallb (fun kv => existsb (str_eqb (fst kv)) allowed) d then Ok tt else Err tag.
+(* ---- additions for data.py Screen.single_treatment_effects (C14 link) ---- *)
+(* try: <body> except E: <handler>, both ending in a return: an exception of the body that carries E's tag is replaced by the
+   handler's outcome, any other exception passes *)
+Definition res_catch {A : Type} (tag : Z) (body handler : result A) : result A :=
+  match body with
+  | Ok v => Ok v
+  | Err t => if t =? tag then handler else Err t
+  end.
